@@ -19,7 +19,7 @@ func init() {
 			"(4) length-prefix acceptance — a decoded string length may be rejected only against the caller's limit or the delivered byte count, never against a constant that excludes 0 (the empty string is a legal value); (5) errors of the underlying read are never swallowed: on the path where the read failed the decoder returns that error (fixed-width decoders with the zero value); (6) ReWrite copies with the builtin copy into the existing unread region (cannot grow or shift it). " +
 			"NOT decided: panics for an invalid ReWrite position, int(uint32) on 32-bit platforms, allocation size for hostile lengths, full round-trip equality over all value sequences (follows from encoding/binary's own round trip plus these pairings).",
 		Assumptions: []string{"encoding/binary and math.Float64bits round-trip", "io.ReadFull's contract"},
-		Floors:      map[string]int{"C10.codec-pair": 14, "C10.sibling": 10, "C10.short-read": 1, "C10.length-prefix": 4, "C10.error-not-swallowed": 20, "C10.rewrite": 1},
+		Floors:      map[string]int{"C10.codec-pair": 14, "C10.sibling": 10, "C10.short-read": 3, "C10.length-prefix": 4, "C10.error-not-swallowed": 20, "C10.rewrite": 1},
 		Run:         runC10,
 	})
 }
@@ -215,6 +215,7 @@ func runC10(c *Ctx) {
 
 	// (3) short read
 	c.checkShortRead(cfg)
+	c.checkFullRead(cfg)
 	// (4) length prefix
 	c.checkLengthPrefix(cfg)
 	// (5) errors not swallowed
@@ -462,6 +463,51 @@ func (c *Ctx) checkShortRead(cfg TraceConfig) {
 		c.undecided("C10.short-read", cons, fn.Pos(), "no read of the underlying io.Reader found")
 	} else if ok {
 		c.holds("C10.short-read", cons, fn.Pos(), "reads until the buffer is full (io.ReadFull or retry)")
+	}
+}
+
+// checkFullRead: a Read of the typed codec succeeds only when the whole requested buffer was filled
+// (a short count from the underlying buffer is truncated input and must be an error, not a zero-padded value).
+func (c *Ctx) checkFullRead(cfg TraceConfig) {
+	const rel = "bytex"
+	for _, typ := range []string{"BufferX", "ReaderX"} {
+		fn := c.mustFn(rel, "(*"+typ+").Read")
+		if fn == nil {
+			continue
+		}
+		cons := "(*bytex." + typ + ").Read full"
+		traces, _ := c.Trace(fn, cfg)
+		ok, n := true, 0
+		lenP := &Sym{Kind: KOp, Name: "len", Args: []*Sym{{Kind: KParam, Ref: fn.Params[1], Typ: fn.Params[1].Type()}}, Typ: types.Typ[types.Int]}
+		for _, t := range traces {
+			if t.End != EndReturn || !t.Ret[0].isNilConst() {
+				continue
+			}
+			facts := t.factsBefore(len(t.Events))
+			var rd *Event
+			for _, e := range t.Events {
+				if e.Kind == EvCall && (e.callName() == "(*bytes.Buffer).Read" || e.callName() == "(io.Reader).Read") {
+					rd = e
+				}
+			}
+			if rd == nil {
+				continue // len(p)==0 early return, or io.ReadFull whose error is the result
+			}
+			n++
+			cnt := rd.Res.Args[0]
+			full := hasFact(facts, func(f Fact) bool {
+				return f.X.Key() == cnt.Key() && f.Op == token.EQL && f.Y.Key() == lenP.Key()
+			}) || hasFact(facts, func(f Fact) bool {
+				return f.X.Key() == cnt.Key() && f.Op == token.GEQ && f.Y.Key() == lenP.Key()
+			})
+			if !full && ok {
+				ok = false
+				c.violated("C10.short-read", cons, rd.Pos, "Read reports success without the delivered count having been found equal to the requested length: input truncated inside a fixed-width value decodes as a zero-padded value with a nil error (and the two readers disagree on the same bytes)", c.witness(t, len(t.Events)-1)...)
+			}
+		}
+		if ok {
+			c.holds("C10.short-read", cons, fn.Pos(), fmt.Sprintf("%d success paths, each under count == len(p)", n))
+		}
 	}
 }
 
